@@ -255,10 +255,68 @@ def subscribe (st : State) (id : String) (acl : Acl) (firstRecv : Option Req) : 
 def updateSub (st : State) (id : String) (f : Subscriber → Subscriber) : State :=
   { st with subs := st.subs.map (fun s => if s.id = id then f s else s) }
 
+/-- A queued handle is read when it is sent: it shows the last notification written to its leaf
+object, including writes that produced no event (suppressed updates).  Handles whose leaf is
+still attached (no delete item covering the key is queued behind them) are refreshed from the
+cache after each operation. -/
+def refreshQueue (c : Cache.State) : List (Item × Nat) → List (Item × Nat)
+  | [] => []
+  | (it, d) :: rest =>
+    let it' := match it with
+      | .handle t k last =>
+        if rest.any (fun x => match x.1 with
+            | .note e => coversKey e t k
+            | _ => false) then it
+        else
+          match (c.get t).bind (fun tg => lookup tg.tree k) with
+          | some n => Item.handle t k n
+          | none => Item.handle t k last
+      | _ => it
+    (it', d) :: refreshQueue c rest
+
 /-- a cache operation produced `events`: offer them to every live STREAM subscriber, then let
 the senders run -/
 def feed (st : State) (events : List Event) : State :=
-  { st with subs := st.subs.map (fun s => pumpAll (events.foldl enqueueEvent s)) }
+  { st with subs := st.subs.map (fun s =>
+      let s := events.foldl enqueueEvent s
+      pumpAll { s with queue := refreshQueue st.cache s.queue }) }
+
+/-- `Server.Subscribe` with a cache operation placed by the harness (schedule hooks) at the
+start of `processSubscription` (`atStart`: after the registration, before the walk) or at its
+end (after the sync marker was queued).  The flag tells whether the point was reached. -/
+def subscribeInject (st : State) (id : String) (acl : Acl) (firstRecv : Option Req) (atStart : Bool)
+    (inject : Cache.State → Cache.State × List Event) : State × Bool :=
+  let plain := subscribe st id acl firstRecv
+  match acl, firstRecv with
+  | .fails, _ => (plain, false)
+  | _, none => (plain, false)
+  | _, some r =>
+    let accepted := r.hasSubscribe && !r.prefixNil && r.target != "" && st.cache.hasTarget r.target &&
+      (r.target == "*" || acl.check r.target)
+    let walks := match r.mode with
+      | .once => true
+      | .poll => true
+      | .stream => !r.updatesOnly
+      | .other => false
+    if !(accepted && walks) then (plain, false)
+    else
+      let s : Subscriber := { id := id, req := r, acl := acl }
+      let s := if r.mode = .stream then { s with regs := regQueries r } else s
+      if atStart then
+        let c := inject st.cache
+        let st := feed { st with cache := c.1 } c.2
+        let s := c.2.foldl enqueueEvent s
+        let s := doWalk st.cache s
+        let s := if r.mode = .once ∧ s.alive then { s with closed := true } else s
+        ({ st with subs := st.subs ++ [pumpAll s] }, true)
+      else
+        -- the harness lets the sender drain before it runs the operation: the plain call, then
+        -- the operation fed to everybody (the new subscriber included, if it registered)
+        let walked := doWalk st.cache s
+        if !walked.alive then (plain, false)          -- CompletePath failed: the point is not reached
+        else
+          let c := inject plain.cache
+          (feed { plain with cache := c.1 } c.2, true)
 
 /-- a poll trigger received by the handler of subscriber `id` -/
 def poll (st : State) (id : String) : State :=
